@@ -581,12 +581,19 @@ func StrConstOf(v ssa.Value) (string, bool) {
 // Loops computes the natural loops of fn: for each back edge t->h (h dominates t) the set of blocks.
 func Loops(fn *ssa.Function) []map[*ssa.BasicBlock]bool {
 	var out []map[*ssa.BasicBlock]bool
+	byHead := map[*ssa.BasicBlock]map[*ssa.BasicBlock]bool{}
 	for _, t := range fn.Blocks {
 		for _, h := range t.Succs {
 			if !h.Dominates(t) {
 				continue
 			}
-			loop := map[*ssa.BasicBlock]bool{h: true}
+			// back edges sharing a header form one loop
+			loop := byHead[h]
+			if loop == nil {
+				loop = map[*ssa.BasicBlock]bool{h: true}
+				byHead[h] = loop
+				out = append(out, loop)
+			}
 			work := []*ssa.BasicBlock{t}
 			for len(work) > 0 {
 				b := work[len(work)-1]
@@ -597,7 +604,6 @@ func Loops(fn *ssa.Function) []map[*ssa.BasicBlock]bool {
 				loop[b] = true
 				work = append(work, b.Preds...)
 			}
-			out = append(out, loop)
 		}
 	}
 	return out
@@ -616,3 +622,65 @@ func InnermostLoop(fn *ssa.Function, b *ssa.BasicBlock) map[*ssa.BasicBlock]bool
 
 // CellOf resolves an address (Alloc or a chain of captured free variables) to the variable cell it denotes.
 func (p *Prog) CellOf(addr ssa.Value) *ssa.Alloc { return p.cellOf(addr) }
+
+// MustExecBefore reports whether every CFG path starting right after start executes an instruction satisfying target before
+// it enters a block satisfying stop (typically a loop header) or leaves the function. The offending block is returned
+// when it does not hold. (Pure CFG reasoning: no feasibility pruning, so it can only over-report on infeasible paths.)
+func MustExecBefore(start ssa.Instruction, target func(ssa.Instruction) bool, stop func(*ssa.BasicBlock) bool) (bool, *ssa.BasicBlock) {
+	b := start.Block()
+	idx := -1
+	for i, ins := range b.Instrs {
+		if ins == start {
+			idx = i
+		}
+	}
+	hits := func(blk *ssa.BasicBlock, from int) bool {
+		for _, ins := range blk.Instrs[from:] {
+			if target(ins) {
+				return true
+			}
+		}
+		return false
+	}
+	if hits(b, idx+1) {
+		return true, nil
+	}
+	seen := map[*ssa.BasicBlock]bool{}
+	var bad *ssa.BasicBlock
+	var walk func(blk *ssa.BasicBlock) bool
+	walk = func(blk *ssa.BasicBlock) bool {
+		if stop(blk) {
+			bad = blk
+			return false
+		}
+		if seen[blk] {
+			return true
+		}
+		seen[blk] = true
+		if hits(blk, 0) {
+			return true
+		}
+		if len(blk.Succs) == 0 {
+			if _, isPanic := blk.Instrs[len(blk.Instrs)-1].(*ssa.Panic); isPanic {
+				return true
+			}
+			bad = blk
+			return false
+		}
+		for _, s := range blk.Succs {
+			if !walk(s) {
+				return false
+			}
+		}
+		return true
+	}
+	for _, s := range b.Succs {
+		if !walk(s) {
+			return false, bad
+		}
+	}
+	if len(b.Succs) == 0 {
+		return false, b
+	}
+	return true, nil
+}
